@@ -23,9 +23,12 @@ PARTIAL = [
     "only construction, callbacks and the end are observed",
     "geometry_layer_translated ties the BODIES of Circuit::placedWidth / placedHeight / pinXOffset / pinYOffset / placement / x / y / "
     "orientation / area, isTurn and Rectangle(int,int,int,int) to the hand-written Cell.* / Circuit.pinXOffset / pinYOffset "
-    "(Gen/GeomFns.lean is regenerated from the clang AST on every run and proved equal, as functions, to the model); NOT translated: "
-    "the loops of Circuit::hpwl (its model Circuit.hpwl stays tied by the differential stream only) and the representation map "
-    "array-of-fields <-> Cell / Pin records, which the translator states rather than derives",
+    "(Gen/GeomFns.lean is regenerated from the clang AST on every run and proved equal, as functions, to the model); geometry_loops_translated does the same for the "
+    "nested loops of Circuit::hpwl() (generated List.foldl's with the INT_MAX / INT_MIN sentinels of std::numeric_limits<int>): equal to "
+    "Circuit.hpwl when every pin position is a C++ int (GeomTie.PinsInInt, implied by Checked.HpwlDom) - beyond that range the "
+    "unbounded-Int reading of the sentinels differs from the model and nothing is claimed; NOT derived: the representation map "
+    "array-of-fields / CSR arrays <-> Cell / Pin / Net records (nbNets(), nbPinsNet(net), pinCell(net,i) as list lengths / lookups), "
+    "which the translator states",
     "orientation-changing moves are outside IncrNetModel's documented scope (pin offsets are frozen at build time): the "
     "invariant is about position updates, and the dprun oracle compares value() with the from-scratch HPWL under the offsets of "
     "the construction-time orientations; the consequence for detailed placement is known finding KF-C05-1 (C05)",
